@@ -232,3 +232,6 @@ def run(facts, rep, tier):
     from . import c14
     c14.rule_r1(facts, rep, "C05-R6")
     c14.rule_r5(facts, rep, "C05-R6b")
+    rep.rule("C05-R2b", "= C15-R3: the directory a reference is resolved against (Key::parent) and the url reader / writer use one path algebra.")
+    from . import c15
+    c15.rule_r3(facts, rep, "C05-R2b")
